@@ -333,6 +333,25 @@ structure MErr where
   path : Text
 deriving Repr, DecidableEq
 
+/-- one frame of the Go call stack as `runtime.Caller` / `runtime.FuncForPC` report it: the file, and
+    the function's name (`none`: `FuncForPC` returns nil) -/
+structure Frame where
+  file : Text
+  func : Option Text
+deriving Repr, DecidableEq
+
+/-- `runtime.Caller(i)` on the stack `frames` (index 0 = the caller of `runtime.Caller` itself, i.e.
+    `baseCaller`): `(pc, file, line, ok)`; the program counter is represented by the frame's index -/
+def runtimeCaller (frames : List Frame) (i : Int) : Int × Text × Int × Bool :=
+  if i < 0 then (0, [], 0, false) else
+  match frames[i.toNat]? with
+  | some f => (i, f.file, 0, true)
+  | none => (0, [], 0, false)
+
+/-- `runtime.FuncForPC(pc)` for a program counter obtained from `runtimeCaller` -/
+def funcForPC (frames : List Frame) (pc : Int) : Option Text :=
+  if pc < 0 then none else (frames[pc.toNat]?).bind (·.func)
+
 /-- `difflib.OpCode` with Go's `int` fields -/
 structure OpCodeI where
   tag : Int
